@@ -62,13 +62,20 @@ deriving Repr, DecidableEq
 
 structure DivStep where
   divisor : Mono
-  /-- where `div * mult` is accumulated; `none` if the quotient is unused -/
+  /-- where `div * mult` is accumulated -/
   target  : Target
   mult    : Mono
   /-- true if the statement is `=` (overwrite) rather than `+=` -/
   assign  : Bool
-  /-- true if the final remainder is added to the same target in this step -/
-  addRem  : Bool
+deriving Repr, DecidableEq
+
+/-- a whole `reshape_*` function: the chain starts from `mat.row`, every later `divmod` reads the
+    previous remainder, and the last remainder is added to `remTarget`. -/
+structure Chain where
+  steps     : List DivStep
+  remTarget : Target
+  /-- output shape `(rows, cols)` as monomials (`mat.resize`) with `n` standing for the atom-batch length -/
+  outRows   : Mono
 deriving Repr, DecidableEq
 
 /-- dispatch branch of `Symfc.solve` -/
